@@ -594,13 +594,13 @@ pub fn parse_responses(stream: &[u8], is_head: &[bool], closed: bool) -> ParseOu
             }
             true
         };
-        if chunked && version == 0 {
+        let bodiless = head_req || status == 204 || status == 304 || status / 100 == 1;
+        if chunked && version == 0 && !bodiless {
             fail!("offset {start}: Transfer-Encoding: chunked in an HTTP/1.0 response (an HTTP/1.0 client cannot delimit it)");
         }
         if chunked && cl.is_some() {
             fail!("offset {start}: both Content-Length and Transfer-Encoding");
         }
-        let bodiless = head_req || status == 204 || status == 304 || status / 100 == 1;
         let framing = if bodiless {
             if (status == 204 || status / 100 == 1) && (chunked || cl.is_some()) {
                 fail!("offset {start}: {status} response carries a length/TE header");
